@@ -5,6 +5,7 @@ import PbBss.Proofs.GaussM
 import PbBss.Proofs.EmCacg
 import PbBss.Proofs.EmNonVacuous
 import PbBss.Proofs.EmFull
+import PbBss.Proofs.EmGcacg
 /-! # C02 — EM iterations never decrease the mixture log-likelihood
 
 Statements only (helper lemmas: `PbBss/Proofs/{Em,EmProof,EmMono,EmGauss,EmWatson,EmCacg,GaussM,TrLogDet}.lean`).
@@ -71,9 +72,10 @@ theorem em_step_monotone (tiny : ℝ) (fam : Family Θ Y ℝ) (rule : WeightRule
     (hrule : rule = .mean → ∀ n, s n = 1) (hinv : WInv tie θ) (hw : ∀ k n, 0 < θ.w k n)
     (hclamp : ClampFree tiny fam θ y)
     (hw' : ∀ k n, 0 < (emStep tiny fam rule tie eps s y θ).w k n)
+    (hfloor : FloorFree rule tie eps fam s y θ)
     (hcomp : CompImproves fam s y θ) :
     logLik fam s θ y ≤ logLik fam s (emStep tiny fam rule tie eps s y θ) y :=
-  EmProof.em_step_monotone tiny fam rule tie eps s y θ htiny hs hrule hinv hw hclamp hw' hcomp
+  EmProof.em_step_monotone tiny fam rule tie eps s y θ htiny hs hrule hinv hw hclamp hw' hfloor hcomp
 
 /-- **EM monotonicity, any number of iterations** (induction over the iteration count): along every stretch
 `a ≤ i ≤ b` of the history of one fit on which no guard is active, `L(fit a) ≤ L(fit b)`.
@@ -85,9 +87,10 @@ theorem em_monotone (tiny : ℝ) (fam : Family Θ Y ℝ) (rule : WeightRule) (ti
     (a b : Nat) (ha : 1 ≤ a) (hab : a ≤ b)
     (hw : ∀ i, a ≤ i → i ≤ b → ∀ k n, 0 < (fit tiny fam rule tie eps s y i γ₀).w k n)
     (hclamp : ∀ i, a ≤ i → i < b → ClampFree tiny fam (fit tiny fam rule tie eps s y i γ₀) y)
+    (hfloor : ∀ i, a ≤ i → i < b → FloorFree rule tie eps fam s y (fit tiny fam rule tie eps s y i γ₀))
     (hcomp : ∀ i, a ≤ i → i < b → CompImproves fam s y (fit tiny fam rule tie eps s y i γ₀)) :
     logLik fam s (fit tiny fam rule tie eps s y a γ₀) y ≤ logLik fam s (fit tiny fam rule tie eps s y b γ₀) y :=
-  EmProof.em_monotone tiny fam rule tie eps s y γ₀ htiny hs heps hrule hγ₀ hγ₀1 a b ha hab hw hclamp hcomp
+  EmProof.em_monotone tiny fam rule tie eps s y γ₀ htiny hs heps hrule hγ₀ hγ₀1 a b ha hab hw hclamp hfloor hcomp
 
 /-- The structural weight invariants (non-negative, sum `≤ 1`, constant on tie groups, `1/K` under
 `weight_constant_axis=-2`) hold for every iterate — they are consequences of the update, not hypotheses. -/
@@ -225,7 +228,7 @@ variable {D N K : Nat}
 variance (data in general position) and the posterior clamp is inactive, the log-likelihood never decreases. -/
 theorem em_monotone_gmm_spherical (tiny log2pi : ℝ) (rule : WeightRule) (tie : Tying N) (eps : ℝ)
     (s : Fin N → ℝ) (y : Fin N → Fin D → ℝ) (γ₀ : Fin (K+1) → Fin N → ℝ) (htiny : 0 < tiny) (hs : ∀ n, 0 ≤ s n)
-    (heps : 0 ≤ eps) (hrule : rule = .mean → ∀ n, s n = 1) (hD : 0 < D)
+    (heps : 0 ≤ eps) (hrule : rule = .mean → ∀ n, s n = 1) (hrule' : rule ≠ .tinyFloor) (hD : 0 < D)
     (hγ₀ : ∀ k n, 0 ≤ γ₀ k n) (hγ₀1 : ∀ n, ∑ k, γ₀ k n ≤ 1) (a b : Nat) (ha : 1 ≤ a) (hab : a ≤ b)
     (hw : ∀ i, a ≤ i → i ≤ b → ∀ k n, 0 < (fit tiny (sphFamily D tiny log2pi) rule tie eps s y i γ₀).w k n)
     (hclamp : ∀ i, a ≤ i → i < b →
@@ -235,7 +238,8 @@ theorem em_monotone_gmm_spherical (tiny log2pi : ℝ) (rule : WeightRule) (tie :
     (hvar : ∀ i, a ≤ i → i ≤ b → ∀ k, 0 < ((fit tiny (sphFamily D tiny log2pi) rule tie eps s y i γ₀).c k).var) :
     logLik (sphFamily D tiny log2pi) s (fit tiny (sphFamily D tiny log2pi) rule tie eps s y a γ₀) y
       ≤ logLik (sphFamily D tiny log2pi) s (fit tiny (sphFamily D tiny log2pi) rule tie eps s y b γ₀) y := by
-  refine EmProof.em_monotone tiny _ rule tie eps s y γ₀ htiny hs heps hrule hγ₀ hγ₀1 a b ha hab hw hclamp ?_
+  refine EmProof.em_monotone tiny _ rule tie eps s y γ₀ htiny hs heps hrule hγ₀ hγ₀1 a b ha hab hw hclamp
+    (fun i _ _ => floorFree_of_ne rule tie eps _ s _ _ hrule') ?_
   intro i h1 h2 k
   have hi1 : 1 ≤ i := le_trans ha h1
   refine sph_mstep_improves tiny log2pi _ _ y _ htiny (hmass i h1 h2 k) hD (hvar i h1 h2.le k) ?_
@@ -246,7 +250,7 @@ theorem em_monotone_gmm_spherical (tiny log2pi : ℝ) (rule : WeightRule) (tie :
 /-- **GMM, diagonal covariances** -/
 theorem em_monotone_gmm_diagonal (tiny log2pi : ℝ) (rule : WeightRule) (tie : Tying N) (eps : ℝ)
     (s : Fin N → ℝ) (y : Fin N → Fin D → ℝ) (γ₀ : Fin (K+1) → Fin N → ℝ) (htiny : 0 < tiny) (hs : ∀ n, 0 ≤ s n)
-    (heps : 0 ≤ eps) (hrule : rule = .mean → ∀ n, s n = 1)
+    (heps : 0 ≤ eps) (hrule : rule = .mean → ∀ n, s n = 1) (hrule' : rule ≠ .tinyFloor)
     (hγ₀ : ∀ k n, 0 ≤ γ₀ k n) (hγ₀1 : ∀ n, ∑ k, γ₀ k n ≤ 1) (a b : Nat) (ha : 1 ≤ a) (hab : a ≤ b)
     (hw : ∀ i, a ≤ i → i ≤ b → ∀ k n, 0 < (fit tiny (diagFamily D tiny log2pi) rule tie eps s y i γ₀).w k n)
     (hclamp : ∀ i, a ≤ i → i < b →
@@ -257,7 +261,8 @@ theorem em_monotone_gmm_diagonal (tiny log2pi : ℝ) (rule : WeightRule) (tie : 
       0 < rd ((fit tiny (diagFamily D tiny log2pi) rule tie eps s y i γ₀).c k).var d) :
     logLik (diagFamily D tiny log2pi) s (fit tiny (diagFamily D tiny log2pi) rule tie eps s y a γ₀) y
       ≤ logLik (diagFamily D tiny log2pi) s (fit tiny (diagFamily D tiny log2pi) rule tie eps s y b γ₀) y := by
-  refine EmProof.em_monotone tiny _ rule tie eps s y γ₀ htiny hs heps hrule hγ₀ hγ₀1 a b ha hab hw hclamp ?_
+  refine EmProof.em_monotone tiny _ rule tie eps s y γ₀ htiny hs heps hrule hγ₀ hγ₀1 a b ha hab hw hclamp
+    (fun i _ _ => floorFree_of_ne rule tie eps _ s _ _ hrule') ?_
   intro i h1 h2 k
   have hi1 : 1 ≤ i := le_trans ha h1
   refine diag_mstep_improves tiny log2pi _ _ y _ htiny (hmass i h1 h2 k) (hvar i h1 h2.le k) ?_
@@ -271,7 +276,7 @@ the covariance is positive definite — data in general position), the log-likel
 theorem em_monotone_gmm_full (tiny log2pi : ℝ) (pchol : Tab D (Tab D ℝ) → Tab D (Tab D ℝ) × ℝ)
     (rule : WeightRule) (tie : Tying N) (eps : ℝ)
     (s : Fin N → ℝ) (y : Fin N → Fin D → ℝ) (γ₀ : Fin (K+1) → Fin N → ℝ) (htiny : 0 < tiny) (hs : ∀ n, 0 ≤ s n)
-    (heps : 0 ≤ eps) (hrule : rule = .mean → ∀ n, s n = 1)
+    (heps : 0 ≤ eps) (hrule : rule = .mean → ∀ n, s n = 1) (hrule' : rule ≠ .tinyFloor)
     (hγ₀ : ∀ k n, 0 ≤ γ₀ k n) (hγ₀1 : ∀ n, ∑ k, γ₀ k n ≤ 1) (a b : Nat) (ha : 1 ≤ a) (hab : a ≤ b)
     (hw : ∀ i, a ≤ i → i ≤ b → ∀ k n, 0 < (fit tiny (fullFamily D pchol tiny log2pi) rule tie eps s y i γ₀).w k n)
     (hclamp : ∀ i, a ≤ i → i < b → ClampFree tiny (fullFamily D pchol tiny log2pi)
@@ -283,7 +288,8 @@ theorem em_monotone_gmm_full (tiny log2pi : ℝ) (pchol : Tab D (Tab D ℝ) → 
         (pchol ((fit tiny (fullFamily D pchol tiny log2pi) rule tie eps s y i γ₀).c k).cov)) :
     logLik (fullFamily D pchol tiny log2pi) s (fit tiny (fullFamily D pchol tiny log2pi) rule tie eps s y a γ₀) y
       ≤ logLik (fullFamily D pchol tiny log2pi) s (fit tiny (fullFamily D pchol tiny log2pi) rule tie eps s y b γ₀) y := by
-  refine EmProof.em_monotone tiny _ rule tie eps s y γ₀ htiny hs heps hrule hγ₀ hγ₀1 a b ha hab hw hclamp ?_
+  refine EmProof.em_monotone tiny _ rule tie eps s y γ₀ htiny hs heps hrule hγ₀ hγ₀1 a b ha hab hw hclamp
+    (fun i _ _ => floorFree_of_ne rule tie eps _ s _ _ hrule') ?_
   intro i h1 h2 k
   have hi1 : 1 ≤ i := le_trans ha h1
   have hpost0 : ∀ n, 0 ≤ post (fullFamily D pchol tiny log2pi)
@@ -299,7 +305,7 @@ exact (unclipped) concentration update on the stretch (`TangentAt`), the log-lik
 theorem em_monotone_cwmm (tiny : ℝ) (pca : Tab D (Tab D ℂ) → Tab D ℂ × ℝ) (kinv lnorm : ℝ → ℝ)
     (rule : WeightRule) (tie : Tying N) (eps : ℝ)
     (s : Fin N → ℝ) (z : Fin N → Fin D → ℂ) (γ₀ : Fin (K+1) → Fin N → ℝ) (htiny : 0 < tiny) (hs : ∀ n, 0 ≤ s n)
-    (heps : 0 ≤ eps) (hrule : rule = .mean → ∀ n, s n = 1)
+    (heps : 0 ≤ eps) (hrule : rule = .mean → ∀ n, s n = 1) (hrule' : rule ≠ .tinyFloor)
     (hγ₀ : ∀ k n, 0 ≤ γ₀ k n) (hγ₀1 : ∀ n, ∑ k, γ₀ k n ≤ 1) (a b : Nat) (ha : 1 ≤ a) (hab : a ≤ b)
     (hpca : ∀ w : Fin N → ℝ, PcaContract (rd2 (watsonScatter w z)) (pca (watsonScatter w z)))
     (hkinv : ∀ x, 0 ≤ kinv x)
@@ -314,7 +320,8 @@ theorem em_monotone_cwmm (tiny : ℝ) (pca : Tab D (Tab D ℂ) → Tab D ℂ × 
       TangentAt lnorm (kinv (pca (watsonScatter c z)).2) (pca (watsonScatter c z)).2) :
     logLik (watsonFamily D pca kinv lnorm) s (fit tiny (watsonFamily D pca kinv lnorm) rule tie eps s z a γ₀) z
       ≤ logLik (watsonFamily D pca kinv lnorm) s (fit tiny (watsonFamily D pca kinv lnorm) rule tie eps s z b γ₀) z := by
-  refine EmProof.em_monotone tiny _ rule tie eps s z γ₀ htiny hs heps hrule hγ₀ hγ₀1 a b ha hab hw hclamp ?_
+  refine EmProof.em_monotone tiny _ rule tie eps s z γ₀ htiny hs heps hrule hγ₀ hγ₀1 a b ha hab hw hclamp
+    (fun i _ _ => floorFree_of_ne rule tie eps _ s _ _ hrule') ?_
   intro i h1 h2 k
   have hi1 : 1 ≤ i := le_trans ha h1
   obtain ⟨w, aux, hc⟩ := fit_c_mstep tiny (watsonFamily D pca kinv lnorm) rule tie eps s z γ₀ i hi1 k
@@ -333,7 +340,7 @@ theorem em_monotone_cacgmm (tiny floor : ℝ)
     (eigh : Tab (D+1) (Tab (D+1) ℂ) → Tab (D+1) (Tab (D+1) ℂ) × Tab (D+1) ℝ) (nrm : CovNorm)
     (rule : WeightRule) (tie : Tying N) (eps : ℝ)
     (s : Fin N → ℝ) (z : Fin N → Fin (D+1) → ℂ) (γ₀ : Fin (K+1) → Fin N → ℝ) (htiny : 0 < tiny) (hs : ∀ n, 0 ≤ s n)
-    (heps : 0 ≤ eps) (hrule : rule = .mean → ∀ n, s n = 1)
+    (heps : 0 ≤ eps) (hrule : rule = .mean → ∀ n, s n = 1) (hrule' : rule ≠ .tinyFloor)
     (hγ₀ : ∀ k n, 0 ≤ γ₀ k n) (hγ₀1 : ∀ n, ∑ k, γ₀ k n ≤ 1) (a b : Nat) (ha : 1 ≤ a) (hab : a ≤ b)
     (hw : ∀ i, a ≤ i → i ≤ b → ∀ k n, 0 < (fit tiny (cacgFamily D eigh nrm floor tiny) rule tie eps s z i γ₀).w k n)
     (hclamp : ∀ i, a ≤ i → i < b → ClampFree tiny (cacgFamily D eigh nrm floor tiny)
@@ -351,7 +358,8 @@ theorem em_monotone_cacgmm (tiny floor : ℝ)
     logLik (cacgFamily D eigh nrm floor tiny) s (fit tiny (cacgFamily D eigh nrm floor tiny) rule tie eps s z a γ₀) z
       ≤ logLik (cacgFamily D eigh nrm floor tiny) s
           (fit tiny (cacgFamily D eigh nrm floor tiny) rule tie eps s z b γ₀) z := by
-  refine EmProof.em_monotone tiny _ rule tie eps s z γ₀ htiny hs heps hrule hγ₀ hγ₀1 a b ha hab hw hclamp ?_
+  refine EmProof.em_monotone tiny _ rule tie eps s z γ₀ htiny hs heps hrule hγ₀ hγ₀1 a b ha hab hw hclamp
+    (fun i _ _ => floorFree_of_ne rule tie eps _ s _ _ hrule') ?_
   intro i h1 h2 k
   have hi1 : 1 ≤ i := le_trans ha h1
   obtain ⟨hC, heig, hfl, htr⟩ := hstep i h1 h2 k
@@ -369,6 +377,53 @@ theorem em_monotone_cacgmm (tiny floor : ℝ)
     rw [hnext] at this
     have h10 : tiny < 10 * tiny := by linarith
     exact lt_of_lt_of_le h10 this
+
+/-- **GCACGMM with unit stream weights** (`prodFamily (sliced cACG) fam₂`: one cACG per class and frequency bin, one
+second-stream component per class shared by all bins; inline weight update with its `tiny` floor = `WeightRule.tinyFloor`):
+along any stretch of one fit on which the weight floor and the posterior clamp are inactive, the second stream's M-step
+does not decrease its part of `Q` (`h₂`; discharged by `sph_mstep_Q` / `diag_mstep_Q` / `full_mstep_Q` for the three
+`covariance_type`s) and every bin's cACG step meets the guards of `cacg_mstep_Q`, the log-likelihood never decreases. -/
+theorem em_monotone_gcacgmm {F : Nat} {Θ₂ Y₂ : Type} (tiny floor : ℝ)
+    (eigh : Tab (D+1) (Tab (D+1) ℂ) → Tab (D+1) (Tab (D+1) ℂ) × Tab (D+1) ℝ) (nrm : CovNorm)
+    (fam₂ : Family Θ₂ Y₂ ℝ) (rule : WeightRule) (tie : Tying N) (eps : ℝ)
+    (s : Fin N → ℝ) (y : Fin N → (Fin F × (Fin (D+1) → ℂ)) × Y₂) (γ₀ : Fin (K+1) → Fin N → ℝ)
+    (htiny : 0 < tiny) (hs : ∀ n, 0 ≤ s n) (heps : 0 ≤ eps) (hrule : rule = .mean → ∀ n, s n = 1)
+    (hγ₀ : ∀ k n, 0 ≤ γ₀ k n) (hγ₀1 : ∀ n, ∑ k, γ₀ k n ≤ 1) (a b : Nat) (ha : 1 ≤ a) (hab : a ≤ b) :
+    let fam := prodFamily (sliced (F := F) (cacgFamily D eigh nrm floor tiny)) fam₂
+    let fitI := fun i => fit tiny fam rule tie eps s y i γ₀
+    (∀ i, a ≤ i → i ≤ b → ∀ k n, 0 < (fitI i).w k n) →
+    (∀ i, a ≤ i → i < b → ClampFree tiny fam (fitI i) y) →
+    (∀ i, a ≤ i → i < b → FloorFree rule tie eps fam s y (fitI i)) →
+    -- second stream: exact / non-decreasing M-step
+    (∀ i, a ≤ i → i < b → ∀ k,
+      let c := fun n => post fam (fitI i) y k n * s n
+      compQ fam₂ c (fun n => (y n).2) ((fitI i).c k).2
+        ≤ compQ fam₂ c (fun n => (y n).2) (fam₂.mstep N c (fun _ => 1) (fun n => (y n).2))) →
+    -- spatial stream: every bin's Tyler step is guard-free
+    (∀ i, a ≤ i → i < b → ∀ k f,
+      let c := fun n => if ((y n).1).1 = f then post fam (fitI i) y k n * s n else 0
+      let θ := rd ((fitI i).c k).1 f
+      let z := fun n => ((y n).1).2
+      let A := cacgScatter nrm tiny N c (fun n => cacgQuad tiny θ (z n)) z
+      let θ' := cacgMstep eigh nrm floor tiny N c (fun n => cacgQuad tiny θ (z n)) z
+      tiny ≤ ∑ n, c n ∧ Valid θ ∧ (∀ n, 10 * tiny ≤ cacgQuad tiny θ (z n)) ∧ EighOk A (eigh A) ∧
+      EigGuard nrm floor tiny (rd (eigh A).2) ∧
+      (nrm = .trace → tiny ≤ ∑ d, (rd2 (cacgScatter .none tiny N c (fun n => cacgQuad tiny θ (z n)) z) d d).re) ∧
+      (∀ e, 0 < rd θ'.vals e) ∧ (∀ n, tiny < cacgQuad tiny θ' (z n))) →
+    logLik fam s (fitI a) y ≤ logLik fam s (fitI b) y := by
+  intro fam fitI hw hclamp hfloor h₂ hbin
+  refine EmProof.em_monotone tiny fam rule tie eps s y γ₀ htiny hs heps hrule hγ₀ hγ₀1 a b ha hab hw hclamp hfloor ?_
+  intro i h1 h2 k
+  have hpost0 : ∀ n, 0 ≤ post fam (fitI i) y k n * s n :=
+    fun n => mul_nonneg (post_pos _ _ y (hw i h1 h2.le) k n).le (hs n)
+  refine prod_mstep_improves _ fam₂ _ _ y _ ?_ (h₂ i h1 h2 k)
+  refine sliced_cacg_mstep_improves eigh nrm floor tiny _ (fun n => (y n).1) _ fun f => ?_
+  obtain ⟨hC, hval, hq, heig, hfl, htr, hpos', hq'⟩ := hbin i h1 h2 k f
+  have hc0 : ∀ n, 0 ≤ (if ((y n).1).1 = f then post fam (fitI i) y k n * s n else 0) := by
+    intro n; split_ifs
+    · exact hpost0 n
+    · exact le_refl _
+  exact cacg_family_mstep_improves eigh nrm floor tiny _ _ _ htiny hc0 hC hval hq heig hfl htr hpos' hq'
 
 end instances
 
